@@ -203,7 +203,7 @@ def check_sim(prop, tier, seed):
             raise ToolError("mechanism trace validation did not finish: %s" % mtv["incomplete"])
         mech = dict(scenarios=ms["mechanism_traces"], lines=mtv["lines"], explained=mtv["explained"],
                     divergences=len(mtv["diverged"]), first_divergence=(mtv["diverged"] or [None])[0])
-        log("[%s] MECH: %d real runs (incl. aggregate delays and pps limits; amounts read from the log), %d lines, %d explained step by step by SimMech, %d divergences (diagnostic)" % (
+        log("[%s] MECH: %d real runs (incl. aggregate delays and pps limits, computed by the mechanism), %d lines, %d explained step by step by SimMech, %d divergences (diagnostic)" % (
             prop, mech["scenarios"], mech["lines"], mech["explained"], mech["divergences"]))
     known = [k for k in vlib.load_known() if k.get("property") == prop and k.get("status") == "known"]
     known_sigs = {k["signature"] for k in known}
